@@ -72,6 +72,8 @@ def matrix(ctx):
              currents={"source": 4.0, "drain": -2.0, "top": -2.0}, field=0.2, adaptive=False, solve_time=0.12, k=3),
         dict(label="history/cross/second-solve()-on-one-TDGLSolver/ramped-currents", func="history_run", history="second-solve", dev="cross", mel=0.8,
              currents={"source": 4.0, "drain": -2.0, "top": -1.0, "bottom": -1.0}, current_ramp=0.1, adaptive=True, solve_time=0.2, k=3),
+        dict(label="history/tee/solve-inside-translation-context", func="history_run", history="translation-context", dev="tee", mel=0.8,
+             currents={"source": 4.0, "drain": -2.0, "top": -2.0}, adaptive=False, solve_time=0.12, k=3),
         dict(label="history/tee/rotate-90-then-mesh", func="history_run", history="rotate", dev="tee", mel=0.8, mel2=0.6,
              currents={"source": 4.0, "drain": -2.0, "top": -2.0}, adaptive=False, solve_time=0.15, k=3),
     ]
@@ -161,7 +163,7 @@ def run(ctx):
             for c, cu in zip(chunks, ["uA", "mA", "uA", "nA", "uA", "uA"])]
     # 3. natural runs
     runs = matrix(ctx)
-    jobs += [("call", dict(module="harness.runobs", func=a.get("func", "conservation_run"), args=a)) for a in runs]
+    jobs += [("call", dict(module="harness.runobs", func="observed", args=dict(a, job=a.get("func", "conservation_run")))) for a in runs]
     res = rf.replay_all(ctx, jobs)
     ctor_traces = [t for chunk in res[:6] for t in chunk]
     run_traces = res[6:]
@@ -197,6 +199,11 @@ def run(ctx):
     for n in rej2:
         t, a = run_traces[n], runs[n]
         cl = ",".join(clauses2.get(n, ["?"]))
+        if t.get("raised"):
+            ctx.violation(f"C01:raised:{a['label']}", f"C01: run '{a['label']}' raised inside the code under test instead of producing frames that satisfy the "
+                          f"conservation clauses (no action of RunObs matches): {t['raised'][:300]} at {t.get('where')}",
+                          {"module": "RunObs", "args": a, "raised": t["raised"], "where": t.get("where")})
+            continue
         if cl == "BalancedAssignmentsAccepted":
             ctx.violation("C01:BalancedAssignmentsAccepted:solve",
                           f"C01 BalancedAssignmentsAccepted: tdgl.solve rejects the balanced currents {a['currents']} ({a['current_units']}) of run '{a['label']}': {t['error']}",
@@ -231,5 +238,9 @@ def run(ctx):
                        "at the start of the last step); non-trivial = non-zero currents / at least one checked frame")
     ctx.assume("frame 0 is the initial condition recorded before any update: required to be exactly the initial state, not checked for conservation")
     ctx.assume("the boundary flux of a step is set from the currents at the START of that step: requested current evaluated at frame time - last dt")
-    ctx.assume("terminal membership of boundary edges is read from Device.terminal_info(); K0, xi from Device (fine level) and from "
-               "Phi0 d / (2 pi mu0 lambda^2) (coarse level, 5e-6)")
+    ctx.assume("geometry of the oracle: edge lengths, Voronoi face lengths, boundary edges, terminal edges/lengths are rebuilt from the raw site coordinates "
+               "and triangles (numpy) and the terminal polygons; edge_mesh.edges is used only as the index map of the per-edge datasets; lambda, d, xi, units "
+               "are the values the harness asked for; K0 xi / 4 from Device at the fine level, from Phi0 d / (2 pi mu0 lambda^2) at the coarse level (5e-6)")
+    pk = [t["package_vs_raw"] for t in run_traces if t.get("package_vs_raw")]
+    ctx.cov["package_arrays_vs_first_principles"] = {"max_rel_dual_edge_length_difference": max((p["dual"] for p in pk), default=None),
+                                                     "max_rel_edge_length_difference": max((p["edge"] for p in pk), default=None)}
